@@ -1646,6 +1646,9 @@ class CallMixin:
             self.assume(self.list_len(r) == n - 1, st)
             self.assume(self.forall_idx(n - 1, lambda j: self.list_get(r, j) == z3.If(
                 j < pos, self.list_get(recv, j), self.list_get(recv, j + 1))), st)
+            # the same fact read from the old list (a consequence, stated so that e-matching finds the witness index)
+            self.assume(self.forall_idx(n, lambda j: z3.Implies(j != pos, self.list_get(recv, j) == self.list_get(
+                r, z3.If(j < pos, j, j - 1)))), st)
             self.trusted.add("list.remove(x): deletes the first element equal to x")
             return r, none
         if attr == "clear":
